@@ -9,6 +9,7 @@ import heapq
 import itertools
 import signal
 import sys
+import time
 import weakref
 
 import numpy as np
@@ -245,7 +246,7 @@ class Explorer(object):
 
     def __init__(self, run, unit_points=(0.25, 0.75), vec_unit_points=(0.25, 0.75), prune=True,
                  horizon=2000, max_executions=200000, exec_timeout=30.0, invariant=None,
-                 extra_state=None, stop_on_first=True, depth_bound=None):
+                 extra_state=None, stop_on_first=True, depth_bound=None, max_seconds=None):
         self.run = run
         self.unit_points = tuple(unit_points)
         self.vec_unit_points = tuple(vec_unit_points)
@@ -258,6 +259,8 @@ class Explorer(object):
         self.stop_on_first = stop_on_first
         self.depth_bound = depth_bound      # intentional bound on choice points per execution
         self.depth_cuts = 0
+        self.max_seconds = max_seconds      # wall-clock guard per configuration (blow-up protection)
+        self.timed_out_config = False
         self.seen = set()
         self.executions = 0
         self.completed = 0
@@ -272,6 +275,7 @@ class Explorer(object):
         self.max_dev_completed = 0
         self.terminal = set()
         self.stopped_early = False
+        self.stop_now = False
         self._tracked = []
 
     # -- called by the scripted generator ------------------------------------
@@ -332,6 +336,7 @@ class Explorer(object):
             raise Abort()
         if pos >= self.horizon:
             self.horizon_hits += 1
+            self.stop_now = True       # deeper executions of this configuration would only repeat the cut
             raise Abort()
         site = None
         if pos < len(self.prefix):
@@ -385,6 +390,7 @@ class Explorer(object):
         self.nstates_unpruned = 0
         pending = [(0, 0, 0, (), None, None, hash(()))]
         old = signal.signal(signal.SIGALRM, self._alarm)
+        t_start = time.time()
         try:
             while True:
                 if pending:
@@ -400,6 +406,11 @@ class Explorer(object):
                     break
                 if self.executions >= self.max_executions:
                     self.capped = True
+                    break
+                if self.stop_now:
+                    break
+                if self.max_seconds is not None and time.time() - t_start > self.max_seconds:
+                    self.timed_out_config = True
                     break
                 self.prefix = prefix
                 self.prefix_sig = sig
@@ -455,7 +466,8 @@ class Explorer(object):
             'timeouts': self.timeouts,
             'opaque_states': self.opaque_states,
             'unmodelled_draws': self.unmodelled,
-            'capped': self.capped,
+            'capped': self.capped or self.timed_out_config,
+            'config_time_budget_hit': self.timed_out_config,
             'depth_bound_cuts': self.depth_cuts,
             'max_depth': self.max_depth,
         }
